@@ -1,7 +1,7 @@
 (** C18 - the decoders used by the correspondence check satisfy the round-trip hypotheses of the
     transport theorems: base64 for all byte strings, the catalogue TextUnmarshaler for all strings. *)
 From Coq Require Import List ZArith String Ascii Bool Lia ZifyBool ZifyNat.
-From Thunder Require Import Lib.Json Args.Model Args.Spec Args.Proofs.
+From Thunder Require Import Lib.Json Args.Model Args.Spec Args.Codec Args.Proofs.
 Import ListNotations.
 Open Scope string_scope.
 Local Open Scope Z_scope.
@@ -60,43 +60,102 @@ Qed.
 Theorem text_roundtrip : forall s, text_dec (text_enc s) = Some s.
 Proof. reflexivity. Qed.
 
-(** RFC 3339: the general formatter is not modelled; the hypothesis is instantiated on a sample of
-    printed times (each line is checked by evaluation of the model's [time_dec]). *)
-Definition time_samples : list (tval * string) :=
-  [ (mk_tval 2020 1 2 3 4 5 0 0, "2020-01-02T03:04:05Z");
-    (mk_tval 2024 2 29 23 59 59 123000000 19800, "2024-02-29T23:59:59.123+05:30");
-    (mk_tval 1 1 1 0 0 0 0 0, "0001-01-01T00:00:00Z");
-    (mk_tval 9999 12 31 23 59 59 999999999 (-43200), "9999-12-31T23:59:59.999999999-12:00") ].
-
-Definition tval_eq_dec (a b : tval) : {a = b} + {a <> b}.
-Proof. repeat decide equality. Defined.
-
-Definition time_enc_sample (x : tval) : string :=
-  match find (fun p => if tval_eq_dec (fst p) x then true else false) time_samples with
-  | Some p => snd p
-  | None => ""
-  end.
-
-Definition time_sample_ok (x : tval) : Prop := In x (map fst time_samples).
-
-Theorem time_sample_roundtrip : forall x, time_sample_ok x -> time_dec (time_enc_sample x) = Some x.
+(** * RFC 3339 *)
+Lemma digit_digit_chr d : 0 <= d < 10 -> digit (digit_chr d) = Some d.
 Proof.
-  intros x H. unfold time_sample_ok in H. cbn [map fst time_samples] in H.
-  repeat (destruct H as [<- | H]; [vm_compute; reflexivity|]). contradiction.
+  intros H.
+  assert (E : exists k : nat, (k < 10)%nat /\ d = Z.of_nat k) by (exists (Z.to_nat d); lia).
+  destruct E as (k & Hk & ->).
+  do 10 (destruct k as [|k]; [vm_compute; reflexivity|]). lia.
+Qed.
+
+Lemma digit_chr_not c d : 0 <= d < 10 -> c < 48 \/ 57 < c -> chr_is (digit_chr d) c = false.
+Proof.
+  intros H Hc. unfold chr_is, digit_chr.
+  rewrite nat_ascii_embedding by lia. lia.
+Qed.
+
+Lemma digits2 n acc r : 0 <= n < 100 -> digits 2 acc (d2 n r) = Some (acc * 100 + n, r).
+Proof.
+  intros H. unfold d2. cbn [digits].
+  rewrite !digit_digit_chr by lia. f_equal. f_equal. lia.
+Qed.
+
+Lemma digits4 n r : 0 <= n < 10000 -> digits 4 0 (d4 n r) = Some (n, r).
+Proof.
+  intros H. unfold d4, d2. cbn [digits].
+  rewrite !digit_digit_chr by lia. f_equal. f_equal. lia.
+Qed.
+
+Lemma digits_upto9 n r : 0 <= n < 1000000000 -> digits_upto 9 0 0 (d9 n r) = (n, 9%nat, r).
+Proof.
+  intros H. unfold d9, d4, d2. cbn [digits_upto].
+  rewrite !digit_digit_chr by lia. f_equal. f_equal. lia.
+Qed.
+
+Lemma zone_roundtrip off : - 86400 < off < 86400 -> off mod 60 = 0 -> time_zone (zone_enc off) = Some off.
+Proof.
+  intros H Hm. unfold zone_enc.
+  destruct (off =? 0) eqn:E0; [assert (off = 0) by lia; subst; reflexivity|].
+  destruct (0 <? off) eqn:Ep.
+  - cbn [time_zone]. change (chr_is "+" 90) with false. change (chr_is "+" 43) with true. cbv iota.
+    cbn [obind]. rewrite digits2 by lia. cbn [obind expect]. change (chr_is ":" 58) with true. cbv iota. cbn [obind].
+    rewrite digits2 by lia. cbn [obind].
+    assert (C : ((0 * 100 + Z.abs off / 3600 <=? 24) && (0 * 100 + Z.abs off mod 3600 / 60 <=? 60)) = true) by lia.
+    rewrite C. f_equal. lia.
+  - cbn [time_zone]. change (chr_is "-" 90) with false. change (chr_is "-" 43) with false.
+    change (chr_is "-" 45) with true. cbv iota.
+    cbn [obind]. rewrite digits2 by lia. cbn [obind expect]. change (chr_is ":" 58) with true. cbv iota. cbn [obind].
+    rewrite digits2 by lia. cbn [obind].
+    assert (C : ((0 * 100 + Z.abs off / 3600 <=? 24) && (0 * 100 + Z.abs off mod 3600 / 60 <=? 60)) = true) by lia.
+    rewrite C. f_equal. lia.
+Qed.
+
+Lemma zone_first_char off :
+  exists c r, zone_enc off = String c r /\ chr_is c 46 = false /\ chr_is c 44 = false.
+Proof.
+  unfold zone_enc. destruct (off =? 0); [exists "Z"%char, ""; auto|].
+  destruct (0 <? off); eexists; eexists; split; try reflexivity; auto.
+Qed.
+
+Theorem time_roundtrip : forall x, time_ok x -> time_dec (time_enc x) = Some x.
+Proof.
+  intros [y mo d h mi s ns off] (Hy & Hmo & Hd & Hh & Hmi & Hs & Hns & Hoff & Hoffm).
+  cbn [t_year t_month t_day t_hour t_min t_sec t_nsec t_off] in *.
+  unfold time_enc, time_dec. cbn [t_year t_month t_day t_hour t_min t_sec t_nsec t_off]. cbv zeta.
+  rewrite digits4 by lia. cbn [obind expect]. change (chr_is "-" 45) with true. cbv iota. cbn [obind].
+  assert (Hd31 : d <= 31).
+  { unfold days_in in Hd. repeat match type of Hd with context [if ?c then _ else _] => destruct c end; lia. }
+  rewrite digits2 by lia. cbn [obind expect]. change (chr_is "-" 45) with true. cbv iota. cbn [obind].
+  rewrite digits2 by lia. cbn [obind expect]. change (chr_is "T" 84) with true. cbv iota. cbn [obind].
+  rewrite digits2 by lia. cbn [obind expect]. change (chr_is ":" 58) with true. cbv iota. cbn [obind].
+  rewrite digits2 by lia. cbn [obind expect]. change (chr_is ":" 58) with true. cbv iota. cbn [obind].
+  rewrite digits2 by lia. cbn [obind].
+  assert (C : ((1 <=? 0 * 100 + mo) && (0 * 100 + mo <=? 12) && (1 <=? 0 * 100 + d)
+               && (0 * 100 + d <=? days_in y (0 * 100 + mo)) && (0 * 100 + h <? 24) && (0 * 100 + mi <? 60)
+               && (0 * 100 + s <? 60)) = true).
+  { replace (0 * 100 + mo) with mo by lia. replace (0 * 100 + d) with d by lia. lia. }
+  unfold frac_enc. destruct (ns =? 0) eqn:En.
+  - destruct (zone_first_char off) as (c & r & Hz & H46 & H44). rewrite Hz. rewrite H46, H44. cbn [orb].
+    cbn [obind]. rewrite <- Hz. rewrite zone_roundtrip by assumption. cbn [obind].
+    rewrite C. f_equal. f_equal; lia.
+  - change (chr_is "." 46) with true. cbn [orb]. rewrite digits_upto9 by lia.
+    cbn [obind]. rewrite zone_roundtrip by assumption. cbn [obind].
+    rewrite C. f_equal. change (10 ^ (9 - Z.of_nat 9)) with 1. f_equal; lia.
 Qed.
 
 Theorem concrete_transports :
   forall (t : ty) (v : gv),
-    wf_ty t -> sendable time_sample_ok (fun _ => True) t v ->
-    parse b64_dec time_dec text_dec t (json_of b64_enc time_enc_sample text_enc t v) = Ok v /\
-    exists j, vtj [] (lit_of b64_enc time_enc_sample text_enc "nul" t v) = Ok j /\
+    wf_ty t -> sendable time_ok (fun _ => True) t v ->
+    parse b64_dec time_dec text_dec t (json_of b64_enc time_enc text_enc t v) = Ok v /\
+    exists j, vtj [] (lit_of b64_enc time_enc text_enc "nul" t v) = Ok j /\
               parse b64_dec time_dec text_dec t j = Ok v.
 Proof.
   intros t v W S. split.
-  - apply (variable_roundtrip b64_dec time_dec text_dec b64_enc time_enc_sample text_enc
-             time_sample_ok (fun _ => True) b64_roundtrip time_sample_roundtrip
+  - apply (variable_roundtrip b64_dec time_dec text_dec b64_enc time_enc text_enc
+             time_ok (fun _ => True) b64_roundtrip time_roundtrip
              (fun s _ => text_roundtrip s) t v W S).
-  - apply (literal_roundtrip b64_dec time_dec text_dec b64_enc time_enc_sample text_enc
-             time_sample_ok (fun _ => True) b64_roundtrip time_sample_roundtrip
+  - apply (literal_roundtrip b64_dec time_dec text_dec b64_enc time_enc text_enc
+             time_ok (fun _ => True) b64_roundtrip time_roundtrip
              (fun s _ => text_roundtrip s) "nul" [] (or_introl eq_refl) t v W S).
 Qed.
